@@ -635,7 +635,56 @@ func (e *Engine) step(st *State, f *Frame, instr ssa.Instruction) ([]*State, boo
 			st.store(it, &ArrayV{e: []Value{I(pos + 1), ents}})
 		}
 		f.ip++
-	case *ssa.Send, *ssa.Select:
+	case *ssa.Select:
+		// receive cases only; a case is ready when its channel is closed (the only way a channel
+		// becomes ready in the single-goroutine model). Go picks any ready case: one successor per
+		// ready case. With no ready case a non-blocking select takes its default; a blocking one waits
+		// forever -- that path ends (nothing it could still do matters to the properties checked).
+		var ready []int
+		for i, stt := range in.States {
+			if stt.Dir != types.RecvOnly {
+				unm("select with a send case")
+			}
+			ch, _ := e.eval(st, f, stt.Chan).(ChanV)
+			if ch.obj != 0 {
+				if av, ok := st.heap.objs[ch.obj].(*ArrayV); ok && len(av.e) == 1 {
+					ready = append(ready, i)
+				}
+			}
+		}
+		result := func(idx int) Value {
+			tv := TupleV{I(int64(idx)), tFalse}
+			for _, stt := range in.States {
+				tv = append(tv, zero(stt.Chan.Type().Underlying().(*types.Chan).Elem()))
+			}
+			return tv
+		}
+		if len(ready) == 0 {
+			if in.Blocking {
+				e.noteAssume("a select or receive that can never proceed ends the path (the goroutine waits forever)")
+				e.endPath(st)
+				return nil, true
+			}
+			f.regs[in] = result(-1)
+			f.ip++
+			return nil, false
+		}
+		var out []*State
+		for k, idx := range ready {
+			s2 := st
+			if k < len(ready)-1 {
+				s2 = st.clone()
+			}
+			s2.top().regs[in] = result(idx)
+			s2.top().ip++
+			out = append(out, s2)
+		}
+		if len(out) == 1 {
+			return nil, false
+		}
+		atomic.AddInt64(&e.stats.Forks, int64(len(out)-1))
+		return out, true
+	case *ssa.Send:
 		unm("channel operation %T", instr)
 	case *ssa.SliceToArrayPointer:
 		unm("SliceToArrayPointer")
@@ -895,7 +944,10 @@ func (e *Engine) unop(st *State, f *Frame, in *ssa.UnOp) ([]*State, bool) {
 			}
 		}
 		if !closed {
-			unm("channel receive that would block")
+			// waits forever in the single-goroutine model: the path ends here
+			e.noteAssume("a select or receive that can never proceed ends the path (the goroutine waits forever)")
+			e.endPath(st)
+			return nil, true
 		}
 		elem := in.X.Type().Underlying().(*types.Chan).Elem()
 		if in.CommaOk {
